@@ -317,6 +317,12 @@ def m_ledgers(hist, rec):
                 g.fee_accrued += fee
             else:
                 ok = ok and paid_t == fee and all(m["to"] == tre for m in pays) and sa["total_fees"] == sb["total_fees"]
+                if tre in a["ledger"]["bal"] and tre != su.contract:
+                    got_t = int(a["ledger"]["bal"][tre].get(D, "0")) - int(b["ledger"]["bal"][tre].get(D, "0"))
+                    if got_t != fee:
+                        report(hist, "C11", "reward_split", {"variant": var, "treasury": True, "ledger": True},
+                               "reward %d committed with fee %d; the treasury's balance changed by %d and the fee balance by %d" % (
+                                   amt, fee, got_t, int(sa["total_fees"]) - int(sb["total_fees"])), rec)
             if int(sb["total_liquid_stake_token"]) == 0:
                 report(hist, "C11", "reward_without_lst", {"variant": var},
                        "reward %d accepted while no LST exists (totals before: %s)" % (amt, sb), rec)
@@ -640,6 +646,8 @@ def m_auth(hist, rec):
                 or batches(a) != batches(b)):
             report(hist, "C10", "resume_exact", {}, "resume did not set exactly the supplied totals", rec)
     # C12
+    if ok and var in ("transfer_ownership", "revoke_ownership_transfer") and c["sender"] != admin:
+        report(hist, "C12", "nomination_by_admin", {"variant": var}, "%s succeeded for %s, who is not the admin" % (var, c["sender"]), rec)
     if a["contract"]["admin"] != admin:
         t_now = int(b["ledger"]["time"]) // 10 ** 9
         mt = b["contract"]["owner_min_time"]
@@ -655,6 +663,26 @@ def m_auth(hist, rec):
         hist.last_nomination = None
         if a["contract"]["pending_owner"] is not None:
             report(hist, "C12", "nomination_consumed", {"variant": var}, "nomination survives %s" % var, rec)
+
+
+def m_submission_burn(hist, rec):
+    """C19 / C03: whatever message makes a batch Submitted, the same committed transaction carries the token-factory burn
+    of exactly that batch's total by the contract (a submission folded into another handler included)"""
+    b, a = rec["before"], rec["after"]
+    if b is None or a is None or not rec["committed"] or cfg(a) is None:
+        return
+    bb = {x["id"]: x for x in batches(b)}
+    lst = cfg(a)["liquid_stake_token_denom"]
+    burns = [m for c in rec["calls"] for m in (c.get("msgs") or []) if m.get("k") == "burn" and m["coin"]["denom"] == lst]
+    burnt = sum(m["coin"]["amount"] for m in burns)
+    newly = [x for x in batches(a) if x["status"] == "submitted" and bb.get(x["id"], {}).get("status") == "pending"]
+    want = sum(int(x["batch_total_liquid_stake"]) for x in newly)
+    if newly and burnt != want:
+        c = first_exec(rec)
+        var = variant(c["msg"]) if c else "?"
+        for prop_, mon in (("C19", "burn_message"), ("C03", "burn_exact")):
+            report(hist, prop_, mon, {"variant": var, "via": "status_change"},
+                   "batch(es) %s became Submitted (total %d LST) in a %s transaction that burns %d" % ([x["id"] for x in newly], want, var, burnt), rec)
 
 
 def m_tracking(hist, rec):
@@ -983,4 +1011,4 @@ def m_tokenfactory(hist, rec):
             report(hist, "C19", "stray_tokenfactory", {"variant": var, "build": hist.build}, "%s emits token-factory messages %s" % (var, tf), rec)
 
 
-ALL = [m_flags, m_tokenfactory, m_config, m_no_panic, m_oracle, m_ledgers, m_handler_level, m_lifecycle, m_auth, m_recover, m_transfer_shape, m_tracking]
+ALL = [m_flags, m_tokenfactory, m_config, m_no_panic, m_oracle, m_ledgers, m_handler_level, m_lifecycle, m_auth, m_recover, m_transfer_shape, m_tracking, m_submission_burn]
